@@ -203,6 +203,8 @@ func (pd *perBitData) parseBitString(extensed bool, lowerBoundPtr *int64, upperB
 	}
 	if ub > 65535 {
 		sizeRange = -1
+		// X.691 10.9.3.5-10.9.3.8: an unconstrained length determinant carries the length itself, not length-lb
+		lb = 0
 	}
 	// initailization
 	bitString := BitString{[]byte{}, 0}
@@ -293,6 +295,8 @@ func (pd *perBitData) parseOctetString(extensed bool, lowerBoundPtr *int64, uppe
 	}
 	if ub > 65535 {
 		sizeRange = -1
+		// X.691 10.9.3.5-10.9.3.8: an unconstrained length determinant carries the length itself, not length-lb
+		lb = 0
 	}
 	// initailization
 	octetString := OctetString("")
